@@ -18,7 +18,10 @@ CONSTANTS Versions,      \* e.g. {1, 2}; version 0 is the initial pair
           MaxSteps,      \* writer steps
           ReAddOnRemove, \* TRUE as in handleEvent; FALSE = seeded mutant (non-vacuity)
           Serialized,    \* writer steps only at quiescent points
-          OnlyRotations  \* TRUE: the writer does nothing but rename valid versions over the files (rotations proper; deeper bound)
+          OnlyRotations, \* TRUE: the writer does nothing but rename valid versions over the files (rotations proper; deeper bound)
+          WithRemoval,   \* TRUE: the writer may also unlink a file and create it again ("while the files are missing")
+          CachePerFile   \* FALSE as in ReadCertificate (both files are read on every event); TRUE = a design that re-reads only the file the event
+                         \* names and pairs it with what it remembers of the other (second non-vacuity mutant: must violate Converges)
 Files == {"crt", "key"}
 Content == Versions \cup {0, 98, 99}   \* 98 = empty/truncated, 99 = garbage or mismatching
 
@@ -29,29 +32,33 @@ VARIABLES ino,        \* path -> inode currently linked at that path
           queue,      \* fsnotify events: <<op, path>>
           steps, writerDone,
           wpc, wev, rc, rk, current,
-          together    \* history: <<certVersion, keyVersion>> pairs that coexisted on disk
-vars == <<ino, content, nextIno, watch, queue, steps, writerDone, wpc, wev, rc, rk, current, together>>
+          together,   \* history: <<certVersion, keyVersion>> pairs that coexisted on disk
+          notified    \* the last writer step produced an event (it touched a watched inode)
+vars == <<ino, content, nextIno, watch, queue, steps, writerDone, wpc, wev, rc, rk, current, together, notified>>
 
 Ver(c) == IF c \in {98, 99} THEN 99 ELSE c
-DiskPair(i, c) == <<Ver(c[i["crt"]]), Ver(c[i["key"]])>>
+\* what a read of the path yields: inode 0 = nothing linked at the path (the read fails like an empty file does)
+At(c, i) == IF i = 0 THEN 98 ELSE c[i]
+DiskPair(i, c) == <<Ver(At(c, i["crt"])), Ver(At(c, i["key"]))>>
+Watched(f) == watch[f] # 0 /\ watch[f] = ino[f]
 
 Init == /\ ino = [f \in Files |-> IF f = "crt" THEN 1 ELSE 2]
         /\ content = (1 :> 0) @@ (2 :> 0)
         /\ nextIno = 3
         /\ watch = [f \in Files |-> IF f = "crt" THEN 1 ELSE 2]
         /\ queue = <<>> /\ steps = 0 /\ writerDone = FALSE
-        /\ wpc = "idle" /\ wev = <<"-", "-">> /\ rc = 98 /\ rk = 98 /\ current = 0
-        /\ together = {<<0, 0>>}
+        /\ wpc = "idle" /\ wev = <<"-", "-">> /\ rc = (IF CachePerFile THEN 0 ELSE 98) /\ rk = (IF CachePerFile THEN 0 ELSE 98) /\ current = 0
+        /\ together = {<<0, 0>>} /\ notified = TRUE
 
-Emit(f, op) == IF watch[f] = ino[f] THEN Append(queue, <<op, f>>) ELSE queue
+Emit(f, op) == IF Watched(f) THEN Append(queue, <<op, f>>) ELSE queue
 
 \* ---- writer (environment) ----
 Calm == ~Serialized \/ (queue = <<>> /\ wpc = "idle")
 InPlace(f, c) ==  \* truncate / partial / full write on the inode at the path
-  /\ ~OnlyRotations
+  /\ ~OnlyRotations /\ ino[f] # 0
   /\ ~writerDone /\ steps < MaxSteps /\ Calm
   /\ content' = [content EXCEPT ![ino[f]] = c]
-  /\ queue' = Emit(f, "WRITE")
+  /\ queue' = Emit(f, "WRITE") /\ notified' = Watched(f)
   /\ together' = together \cup {DiskPair(ino, content')}
   /\ steps' = steps + 1
   /\ UNCHANGED <<ino, nextIno, watch, writerDone, wpc, wev, rc, rk, current>>
@@ -62,40 +69,64 @@ RenameOver(f, c) ==  \* new inode prepared elsewhere, renamed over the path; old
   /\ content' = content @@ (nextIno :> c)
   /\ ino' = [ino EXCEPT ![f] = nextIno]
   /\ nextIno' = nextIno + 1
-  /\ queue' = (IF watch[f] = ino[f] THEN Append(queue, <<"REMOVE", f>>) ELSE queue)   \* CHMOD is filtered out by handleEvent
-  /\ watch' = [watch EXCEPT ![f] = IF watch[f] = ino[f] THEN 0 ELSE @]
+  /\ queue' = Emit(f, "REMOVE") /\ notified' = Watched(f)   \* CHMOD is filtered out by handleEvent
+  /\ watch' = [watch EXCEPT ![f] = IF Watched(f) THEN 0 ELSE @]
   /\ together' = together \cup {DiskPair(ino', content')}
   /\ steps' = steps + 1
   /\ UNCHANGED <<writerDone, wpc, wev, rc, rk, current>>
 
+Remove(f) ==  \* unlink: the inode loses its last link (REMOVE if it was watched, and the kernel drops the watch); nothing is at the path afterwards
+  /\ WithRemoval /\ ino[f] # 0
+  /\ ~writerDone /\ steps < MaxSteps /\ Calm
+  /\ ino' = [ino EXCEPT ![f] = 0]
+  /\ queue' = Emit(f, "REMOVE") /\ notified' = Watched(f)
+  /\ watch' = [watch EXCEPT ![f] = IF Watched(f) THEN 0 ELSE @]
+  /\ together' = together \cup {DiskPair(ino', content)}
+  /\ steps' = steps + 1
+  /\ UNCHANGED <<content, nextIno, writerDone, wpc, wev, rc, rk, current>>
+
+Create(f, c) ==  \* a new file at a vacant path: nobody watches a path, only inodes - no event
+  /\ WithRemoval /\ ino[f] = 0
+  /\ ~writerDone /\ steps < MaxSteps /\ Calm
+  /\ content' = content @@ (nextIno :> c)
+  /\ ino' = [ino EXCEPT ![f] = nextIno]
+  /\ nextIno' = nextIno + 1
+  /\ notified' = FALSE
+  /\ together' = together \cup {DiskPair(ino', content')}
+  /\ steps' = steps + 1
+  /\ UNCHANGED <<watch, queue, writerDone, wpc, wev, rc, rk, current>>
+
 WriterStops == ~writerDone /\ writerDone' = TRUE
-               /\ UNCHANGED <<ino, content, nextIno, watch, queue, steps, wpc, wev, rc, rk, current, together>>
+               /\ UNCHANGED <<ino, content, nextIno, watch, queue, steps, wpc, wev, rc, rk, current, together, notified>>
 
 \* ---- certwatcher (system) ----
 Dequeue == /\ wpc = "idle" /\ queue # <<>>
            /\ wev' = Head(queue) /\ queue' = Tail(queue)
            /\ wpc' = (IF Head(queue)[1] = "REMOVE" THEN "readd" ELSE "readCert")
-           /\ UNCHANGED <<ino, content, nextIno, watch, steps, writerDone, rc, rk, current, together>>
+           /\ UNCHANGED <<ino, content, nextIno, watch, steps, writerDone, rc, rk, current, together, notified>>
 ReAdd == /\ wpc = "readd"
-         /\ watch' = (IF ReAddOnRemove THEN [watch EXCEPT ![wev[2]] = ino[wev[2]]] ELSE watch)
+         /\ watch' = (IF ReAddOnRemove /\ ino[wev[2]] # 0 THEN [watch EXCEPT ![wev[2]] = ino[wev[2]]] ELSE watch)   \* Add fails while nothing is at the path
          /\ wpc' = "readCert"
-         /\ UNCHANGED <<ino, content, nextIno, queue, steps, writerDone, wev, rc, rk, current, together>>
-ReadCert == /\ wpc = "readCert" /\ rc' = content[ino["crt"]] /\ wpc' = "readKey"
-            /\ UNCHANGED <<ino, content, nextIno, watch, queue, steps, writerDone, wev, rk, current, together>>
-ReadKey == /\ wpc = "readKey" /\ rk' = content[ino["key"]] /\ wpc' = "swap"
-           /\ UNCHANGED <<ino, content, nextIno, watch, queue, steps, writerDone, wev, rc, current, together>>
+         /\ UNCHANGED <<ino, content, nextIno, queue, steps, writerDone, wev, rc, rk, current, together, notified>>
+ReadCert == /\ wpc = "readCert" /\ rc' = (IF CachePerFile /\ wev[2] # "crt" THEN rc ELSE At(content, ino["crt"])) /\ wpc' = "readKey"
+            /\ UNCHANGED <<ino, content, nextIno, watch, queue, steps, writerDone, wev, rk, current, together, notified>>
+ReadKey == /\ wpc = "readKey" /\ rk' = (IF CachePerFile /\ wev[2] # "key" THEN rk ELSE At(content, ino["key"])) /\ wpc' = "swap"
+           /\ UNCHANGED <<ino, content, nextIno, watch, queue, steps, writerDone, wev, rc, current, together, notified>>
 Swap == /\ wpc = "swap"
         /\ current' = (IF Ver(rc) # 99 /\ Ver(rc) = Ver(rk) THEN Ver(rc) ELSE current)   \* LoadX509KeyPair validates, else keep last good
         /\ wpc' = "idle"
-        /\ UNCHANGED <<ino, content, nextIno, watch, queue, steps, writerDone, wev, rc, rk, together>>
+        /\ UNCHANGED <<ino, content, nextIno, watch, queue, steps, writerDone, wev, rc, rk, together, notified>>
 
 Next == WriterStops \/ Dequeue \/ ReAdd \/ ReadCert \/ ReadKey \/ Swap
-        \/ \E f \in Files : \E c \in Content : InPlace(f, c) \/ RenameOver(f, c)
+        \/ \E f \in Files : \/ \E c \in Content : InPlace(f, c) \/ RenameOver(f, c) \/ Create(f, c)
+                             \/ Remove(f)
 Spec == Init /\ [][Next]_vars
 
 \* ---- properties ----
 Quiescent == writerDone /\ queue = <<>> /\ wpc = "idle"
-Converges == Quiescent => LET p == DiskPair(ino, content) IN (p[1] # 99 /\ p[1] = p[2]) => current = p[1]
+\* With removals in play a file created at a vacant path is watched by nobody: the claim is made for the histories whose last step the watcher
+\* was told about (it then reads both files, whatever happened to the other one meanwhile).  Without removals every history is covered.
+Converges == (Quiescent /\ (notified \/ ~WithRemoval)) => LET p == DiskPair(ino, content) IN (p[1] # 99 /\ p[1] = p[2]) => current = p[1]
 ServedExistedStrict == <<current, current>> \in together       \* strict reading of "existed together on disk"
 ServedIsValidVersion == current \in Versions \cup {0}
 \* the pair that is served only ever changes to a pair that was read as a valid matching pair (keeps the last good one)
